@@ -53,31 +53,6 @@ Definition model_query (global info : bytes) (files : list (bytes * bytes)) (cf 
   | Some o => bs "m" ++ bool_to_bytes (negb (is_nil o)) ++ show_filled o
   end.
 
-(* ---- git ------------------------------------------------------------------------------------------ *)
-Definition g_fill_list (fuel : nat) (gm : bytes -> option (list assignment)) (cf isdir : bool) (path : bytes)
-           (l : plist) (o : filled) : option filled :=
-  match strip_base (l_base l) cf path (basename_pos path) with
-  | None => Some o
-  | Some (rel, bpos) => g_fill_maps fuel (fun p => matches_rrp p rel bpos isdir cf) gm (rev (l_maps l)) o
-  end.
-Fixpoint g_fill (fuel : nat) (gm : bytes -> option (list assignment)) (cf isdir : bool) (path : bytes)
-         (stack : list plist) (o : filled) : option filled :=
-  match stack with
-  | [] => Some o
-  | l :: r => match g_fill_list fuel gm cf isdir path l o with
-              | Some o1 => g_fill fuel gm cf isdir path r o1
-              | None => None
-              end
-  end.
-
-Definition git_attrs (global info : bytes) (files : list (bytes * bytes)) (cf : bool) (path : bytes) (isdir : bool)
-  : option filled :=
-  let s := make_setup global info files path in
-  let stack := search_order s in                       (* = git's stack from the top *)
-  let tops := map l_maps stack in
-  let fuel := S (length (flat_map macro_defs tops)) in
-  g_fill fuel (g_macro tops) cf isdir path stack [].
-
 (* what check-attr prints: a value spelled like a state cannot be told from the state *)
 Definition git_view (a : assignment) : option assignment :=
   match snd a with
